@@ -28,7 +28,9 @@ var safeTypes = []typedMaker{
 	{"Identifier", func(s string) interface{} { return suc.IdentifierFromStringKnownToSatisfyTypeContract(s) }},
 }
 
-var enumWords = []string{"async", "auto", "ltr", "rtl", "eager", "lazy", "_blank", "_self", "_top", "_parent", "defer", "true"}
+var enumWords = []string{"async", "auto", "ltr", "rtl", "eager", "lazy", "_blank", "_self", "_top", "_parent", "defer", "true",
+	// other spellings of listed words: an enumerated context emits only the listed words themselves
+	"LTR", "Rtl", "_BLANK", "_Self", "LAZY", "ASYNC", "Auto", "_blan\u212a", "ltr ", " ltr", "ltr\n", "TRUE", "Defer", "_blank _self"}
 
 type cellObs struct {
 	Class    string   // reject | HTML | Escaped | URL | TRURLOrURL | URLSet | Enum | Typed | NoOutput
